@@ -15,6 +15,9 @@ section
 @[simp] theorem setPc_payload (s : State) (t : Nat) (p : Pc) : (setPc s t p).payload = s.payload := rfl
 @[simp] theorem setPc_published (s : State) (t : Nat) (p : Pc) : (setPc s t p).published = s.published := rfl
 @[simp] theorem setPc_nxt (s : State) (t : Nat) (p : Pc) : (setPc s t p).nxt = s.nxt := rfl
+@[simp] theorem setPc_tmpLive (s : State) (t : Nat) (p : Pc) : (setPc s t p).tmpLive = s.tmpLive := rfl
+@[simp] theorem setPc_built (s : State) (t : Nat) (p : Pc) : (setPc s t p).built = s.built := rfl
+@[simp] theorem setPc_builtLive (s : State) (t : Nat) (p : Pc) : (setPc s t p).builtLive = s.builtLive := rfl
 @[simp] theorem setPc_outer (s : State) (t : Nat) (p : Pc) : (setPc s t p).outer = s.outer := rfl
 @[simp] theorem setPc_tok (s : State) (t : Nat) (p : Pc) : (setPc s t p).tok = s.tok := rfl
 @[simp] theorem setPc_calls (s : State) (t : Nat) (p : Pc) : (setPc s t p).calls = s.calls := rfl
@@ -128,10 +131,14 @@ structure Inv (c : Cfg) (s : State) : Prop where
   fresh_state : s.tok ≠ Tok.used → s.saw = [] ∧ s.convIn = [] ∧ s.outer = none ∧ s.outerSets = 0
   pre_ready : c.pre.isSome = true → s.slot = Slot.ready
   nxt_null : s.nxt = Slot.null
+  built_iff : s.built = true ↔ s.pc 0 ≠ Pc.gStart
+  tmp_iff : s.tmpLive = false ↔ (deferred c = true ∧ s.pc 0 ≠ Pc.gStart)
+  built_val : c.argsByRef = false → s.builtLive = true
+  built_ctx : deferred c = false → s.builtLive = true
 
 theorem inv_init (c : Cfg) (hwf : c.WF) : Inv c (init c) := by
   have hpos := hwf.pos
-  refine ⟨?_, ?_, ?_, ?_, ?_, ?_, ?_, ?_, ?_, ?_, ?_, ?_, ?_, ?_, ?_, ?_, ?_, ?_, ?_, ?_⟩ <;> simp only [init, initWith]
+  refine ⟨?_, ?_, ?_, ?_, ?_, ?_, ?_, ?_, ?_, ?_, ?_, ?_, ?_, ?_, ?_, ?_, ?_, ?_, ?_, ?_, ?_, ?_, ?_, ?_⟩ <;> simp only [init, initWith]
   · intro t ht; simp; omega
   · intro t
     by_cases h : t < c.n
@@ -189,6 +196,10 @@ theorem inv_init (c : Cfg) (hwf : c.WF) : Inv c (init c) := by
   · simp
   · simp
   · intro h; simp [h]
+  · simp [hpos, initPc]
+  · simp [hpos, initPc]
+  · simp
+  · simp
 
 end
 
@@ -197,8 +208,8 @@ theorem slot_cases (s : State) : s.slot = Slot.null ∨ s.slot = Slot.node ∨ s
   cases s.slot <;> simp
 
 macro "inv_tac" h:ident : tactic => `(tactic| (
-  obtain ⟨h1, h2, h3, h4, h5, h6, h7, h8, h9, h10, h11, h12, h13, h14, h15, h16, h17, h18, h19, h20⟩ := $h
-  refine ⟨?_, ?_, ?_, ?_, ?_, ?_, ?_, ?_, ?_, ?_, ?_, ?_, ?_, ?_, ?_, ?_, ?_, ?_, ?_, ?_⟩ <;> simp only [setPc_nxt, setPc_pc, setPc_owner, setPc_slot, setPc_payload, setPc_published, setPc_outer, setPc_tok, setPc_calls, setPc_saw, setPc_convIn, setPc_outerSets, setPc_allocs, setPc_frees, setPc_wins, setPc_winner, upd_apply]
+  obtain ⟨h1, h2, h3, h4, h5, h6, h7, h8, h9, h10, h11, h12, h13, h14, h15, h16, h17, h18, h19, h20, h21, h22, h23, h24⟩ := $h
+  refine ⟨?_, ?_, ?_, ?_, ?_, ?_, ?_, ?_, ?_, ?_, ?_, ?_, ?_, ?_, ?_, ?_, ?_, ?_, ?_, ?_, ?_, ?_, ?_, ?_⟩ <;> simp only [setPc_tmpLive, setPc_built, setPc_builtLive, setPc_nxt, setPc_pc, setPc_owner, setPc_slot, setPc_payload, setPc_published, setPc_outer, setPc_tok, setPc_calls, setPc_saw, setPc_convIn, setPc_outerSets, setPc_allocs, setPc_frees, setPc_wins, setPc_winner, upd_apply]
   all_goals grind [slot_cases, pcOK, whoOK, Who.outside, passed, isResolve, holds, waiting, winPayload]))
 
 variable (c : Cfg) (s : State) (t : Nat)
@@ -227,20 +238,46 @@ end
 section
 variable (c : Cfg) (s : State) (t : Nat)
 
+/-- by-value arguments: the frame that owns the copies was allocated in this segment and nothing was released yet -/
+theorem argStorageLive_val (h : Inv c s) (hpc : s.pc 0 = Pc.gStart) (hv : c.argsByRef = false) :
+    argStorageLive c s = true := by
+  have htok : s.tok = Tok.agent 0 := (h.tok_agent 0).2 (by simp [hpc, holds])
+  have hf : s.frees = 0 := by rw [h.frees_eq]; simp [htok]
+  unfold argStorageLive
+  split <;> simp [hv, hf]
+
+/-- a helper that starts inside the call uses live arguments whichever way the frame refers to them -/
+theorem argStorageLive_ctx (hd : deferred c = false) (hv : c.argsByRef = true) : argStorageLive c s = true := by
+  unfold argStorageLive
+  split <;> simp [hv, hd]
+
+theorem argStorageLive_facts (h : Inv c s) (hpc : s.pc 0 = Pc.gStart) :
+    (c.argsByRef = false → argStorageLive c s = true) ∧ (deferred c = false → argStorageLive c s = true) := by
+  refine ⟨argStorageLive_val c s h hpc, fun hd => ?_⟩
+  cases hv : c.argsByRef with
+  | false => exact argStorageLive_val c s h hpc hv
+  | true => exact argStorageLive_ctx c s hd hv
+
 theorem inv_start_ready (h : Inv c s) (hpc : s.pc 0 = Pc.gStart) (hs : s.slot = Slot.ready) (k : Nat) :
     Inv c (setPc (prep c s) 0 (Pc.comp k Who.reg)) := by
+  obtain ⟨hA, hB⟩ := argStorageLive_facts c s h hpc
   unfold prep
+  generalize argStorageLive c s = asl at hA hB ⊢
   inv_tac h
 
 theorem inv_start_cas (h : Inv c s) (hpc : s.pc 0 = Pc.gStart) :
     Inv c (setPc (prep c s) 0 Pc.gCas) := by
+  obtain ⟨hA, hB⟩ := argStorageLive_facts c s h hpc
   unfold prep
+  generalize argStorageLive c s = asl at hA hB ⊢
   inv_tac h
 
 theorem inv_start_mk (hwf : c.WF) (h : Inv c s) (hpc : s.pc 0 = Pc.gStart) (ha : c.adapter = Adapter.mkProm) :
     Inv c (setPc { prep c s with slot := Slot.node, tok := Tok.slot } 0 Pc.gParked) := by
   have hp := hwf.mkp ha
+  obtain ⟨hA, hB⟩ := argStorageLive_facts c s h hpc
   unfold prep
+  generalize argStorageLive c s = asl at hA hB ⊢
   inv_tac h
 
 theorem inv_cas_ok (h : Inv c s) (hpc : s.pc 0 = Pc.gCas) (hs : s.slot = s.nxt) :
